@@ -8,7 +8,7 @@ mkdir -p $DST
 cp $OUT/patch.diff $OUT/demo.py $DST/ 2>/dev/null
 cp $OUT/meta.json $DST/agent_meta.json 2>/dev/null
 cd $WT
-git stash -q 2>/dev/null; git checkout -q -- . ; git apply $OUT/patch.diff
+git checkout -q -- . ; git apply $OUT/patch.diff
 PYTHONPATH=$WT timeout 1200 /venv/bin/python $OUT/demo.py > $DST/demo_with_change.log 2>&1; with=$?
 git checkout -q -- .
 PYTHONPATH=$WT timeout 1200 /venv/bin/python $OUT/demo.py > $DST/demo_without_change.log 2>&1; without=$?
